@@ -1,5 +1,6 @@
 """C19 — interval and profile primitives return exactly the set-theoretic result."""
 import itertools
+import os
 from fractions import Fraction
 
 import vlib
@@ -7,7 +8,7 @@ from gen import intervals as G
 
 ID = "C19"
 PROPS = ["IsoVerif/Props/C19.lean", "IsoVerif/Props/C19Lists.lean", "IsoVerif/Props/C19Profiles.lean",
-         "IsoVerif/Props/C19Split.lean",
+         "IsoVerif/Props/C19Split.lean", "IsoVerif/Props/C19Compose.lean",
          # loop functions regenerated from the source (Gen/Loops.lean): refinement theorems Gen.f = Model.f and the headline
          # theorems over Gen.f, one file per group of functions; the loop-invariant lemmas are audited too so that a re-opened
          # proof is named precisely and takes down only its own group
@@ -17,7 +18,7 @@ PROPS = ["IsoVerif/Props/C19.lean", "IsoVerif/Props/C19Lists.lean", "IsoVerif/Pr
          "IsoVerif/Lemmas/GenSweeps.lean", "IsoVerif/Props/C19GenSweeps.lean",
          "IsoVerif/Lemmas/GenBinSearch.lean", "IsoVerif/Props/C19GenBinSearch.lean",
          "IsoVerif/Lemmas/GenTruncate.lean", "IsoVerif/Props/C19GenTruncate.lean"]
-TARGETS = ["IsoVerif.Props.C19", "IsoVerif.Props.C19Lists", "IsoVerif.Props.C19Profiles", "IsoVerif.Props.C19Split",
+TARGETS = ["IsoVerif.Props.C19", "IsoVerif.Props.C19Lists", "IsoVerif.Props.C19Profiles", "IsoVerif.Props.C19Split", "IsoVerif.Props.C19Compose",
            "IsoVerif.Props.C19GenSums", "IsoVerif.Props.C19GenJunctions", "IsoVerif.Props.C19GenSweeps",
            "IsoVerif.Props.C19GenBinSearch", "IsoVerif.Props.C19GenTruncate", "IsoVerif.Props.C19Gen"]
 GEN_DEPS = ["Prims", "LoopsRt", "Loops", "LoopsOps"]
@@ -578,10 +579,79 @@ def oracle(ctx, disagreements, broken):
             ctx.fail("isoform_profile_glue:" + f["kind"], {"op": "gene_profile", "args": {"transcripts": tr, "delta": delta}},
                      "isoform %s %s profile %s, expected %s (features %s)" % (f["transcript"], f["kind"], f["got"], f["expected"], f["features"]))
     ctx.extra["oracle_cases"] = n
+    binsearch_pipeline_monitor(ctx)
+
+
+# ---- hypothesis audit C19-G1: the argument lists of the two binary searches on every real call of the pipeline
+#      (discharged for the only caller by Props/C19Compose.lean; watched here so that a second caller, or a caller that
+#      passes another feature list, is noticed)
+
+def binsearch_run(kind, seed):
+    """one real pipeline run under harness/mon_wrap.py (`binsearch`) -> (status, calls, [violation records])"""
+    import shutil
+    import pipeline as P
+    import mon_wrap
+    d = P.scratch("isoverif_c19bs_")
+    try:
+        if kind == "toy":
+            paths = P.copy_toy(os.path.join(d, "data"))
+        else:
+            from gen import synth
+            paths = synth.simple_dataset(seed=seed, n_chroms=1, genes_per_chrom=4, reads_per_tx=6, polya=True).write(os.path.join(d, "data"))
+        if "bam" not in paths:
+            return "infra: no input data", 0, []
+        mon = os.path.join(d, "mon.jsonl")
+        rc, log = P.run_isoquant(os.path.join(d, "out"), P.std_args(paths, threads=2),
+                                 wrapper=os.path.join(vlib.HERE, "mon_wrap.py"), env={"MON_FILE": mon, "MON_SET": "binsearch"})
+        calls, viol = mon_wrap.read_monitor(mon)
+        if rc != 0 and not viol:
+            return "infra: rc=%s %s" % (rc, log[-300:]), calls.get("binsearch", 0), []
+        return "ok", calls.get("binsearch", 0), viol
+    finally:
+        shutil.rmtree(d, ignore_errors=True)
+
+
+def binsearch_pipeline_monitor(ctx):
+    import mon_wrap
+    want = {(): ["binsearch_empty_list"], ((1, 5), (6, 6), (10, 12)): [],
+            ((100, 300), (100, 200), (150, 250)): ["binsearch_starts_not_strict", "binsearch_ends_not_strict"],
+            ((1, 5), (8, 7)): ["binsearch_interval_not_wf"]}
+    for l, w in want.items():
+        got = mon_wrap.binsearch_problems(list(l))
+        if got != w:
+            ctx.fail("monitor_selftest", {"op": "monitor_selftest", "args": {"list": [list(x) for x in l]}},
+                     "binsearch_problems gives %s, expected %s" % (got, w))
+    plan = [("toy", 0), ("synth", ctx.seed % 1000 + 1)] + ([] if ctx.tier == "quick" else [("synth", ctx.seed % 1000 + k) for k in (2, 3, 4)])
+    total = 0
+    for kind, seed in plan:
+        st, calls, viol = binsearch_run(kind, seed)
+        total += calls
+        ctx.count("binsearch_pipeline:%s:calls" % kind, calls)
+        if st != "ok":
+            ctx.notes.append("binsearch pipeline monitor (%s, %s): %s" % (kind, seed, st))
+            continue
+        seen = set()
+        for r in viol:
+            if r.get("kind") in seen:
+                continue
+            seen.add(r.get("kind"))
+            ctx.fail("hyp_" + str(r.get("kind")), {"op": "binsearch_pipeline", "args": {"data": kind, "seed": seed}},
+                     "hypothesis of bin_search_spec / bin_search_rev_spec violated by a real caller: %s"
+                     % {k: v for k, v in r.items() if k != "mon"})
+    ctx.extra["binsearch_pipeline_monitor"] = {"runs": len(plan), "calls": total,
+                                               "what": "interval_bin_search(_rev) argument lists: non-empty, well formed, starts and "
+                                                       "ends strictly increasing, on every real call (harness/mon_wrap.py)"}
+    if not total:
+        ctx.notes.append("binsearch pipeline monitor: no call of interval_bin_search(_rev) was observed")
 
 
 def replay(ctx, failure):
     inp = failure["input"]
+    if inp["op"] == "monitor_selftest":
+        return True
+    if inp["op"] == "binsearch_pipeline":
+        st, _, viol = binsearch_run(inp["args"]["data"], inp["args"]["seed"])
+        return any("hyp_" + str(r.get("kind")) == failure["kind"] for r in viol)
     if inp["op"] == "gene_profile":
         tr = {k: [tuple(e) for e in v] for k, v in inp["args"]["transcripts"].items()}
         fails, _, _ = gene_profile_case(ctx, tr, inp["args"]["delta"])
